@@ -25,6 +25,9 @@ var mptConfigs = []exec.MPTConfig{
 	{Store: "level", Version: 5, InitVer: 2, Init: [][2]string{{"0a10", "a"}, {"0a1f", "b"}, {"0b", "c"}}},
 	{Store: "level", Version: 4, InitVer: 1, Init: [][2]string{{"10", "a"}, {"2000", "b"}, {"2011", "c"}}},
 	{Store: "levelp", Version: 6, InitVer: 3, Init: [][2]string{{"0000", "a"}, {"0011", "b"}, {"01", "a"}}},
+	// straight on the persistent store with a fresh trie object (cold node cache) per operation: every node an operation
+	// touches is decoded from its stored record
+	{Store: "pndb", Version: 2, Cold: true},
 }
 
 func runMPT(args []string) (map[string]any, error) {
@@ -67,8 +70,16 @@ func runMPT(args []string) (map[string]any, error) {
 		nTLC = len(hs)
 	}
 	r := rand.New(rand.NewSource(*c.seed))
+	if *c.n > 0 {
+		exec.MaxValBudget = 4
+	}
 	for i := 0; i < *c.n; i++ {
-		run(exec.MHist{Ops: exec.GenMPTHistory(r, *maxOps)}, r.Intn(1000), *shapeEvery)
+		idx := r.Intn(1000)
+		if exec.MaxValBudget > 0 {
+			// the histories with values at the size limit run where stored records are read back
+			idx = []int{13, 12, 1, 13}[i%4]
+		}
+		run(exec.MHist{Ops: exec.GenMPTHistory(r, *maxOps)}, idx, *shapeEvery)
 	}
 	// large-scope store scenarios (one multi-put of several hundred nodes): 1 per 500 random histories, at least 3
 	nbulk := 3 + *c.n/500
